@@ -1,6 +1,7 @@
 PROP = dict(
     module="M3d.Props.C12",
-    gen=["McTable"],
+    gen=["McTable", "C2FMargin"],
+    tie_modules=["M3d.Lemmas.C2FMarginTie"],
     corr=dict(quick=600, thorough=1500),
     corr_theorems=(
         "mc/ms kinds: M3d.C12.mesh_indep_of_workers_and_filter, ms_mesh_indep_of_workers_and_filter, "
@@ -8,6 +9,11 @@ PROP = dict(
         "theorems prove equal - as face multisets - to the filter/worker/slab models for every schedule and conservative filter); "
         "dc kind: dc_windows_each_edge_once, dc_mesh_indep_of_bufsize, dc_shift_preserves_overlap; "
         "rast kind: tiles_partition_pixels, tile_fill_eq_render, raster_indep_of_filter; "
+        "msc2f/mcc2f kinds (coarse-to-fine on tapered solids): the driver evaluates M3d.C2F.seenAll2/3 with reach R = m (one coarse cell) on the two "
+        "labellings and, when it holds, answers with the plain fine mesh: c2f_ms_sound / c2f_mc_sound (filter rejects only blocks without sign change when "
+        "margin >= (R+m)*smallDelta = 2*bigDelta; via c2f_ms_mesh_eq / c2f_mc_mesh_eq, c2f_cover, coarse_mixed_cell_has_vertex2/3, c2f_search_stays_on_edge) "
+        "together with the tie module M3d.Lemmas.C2FMarginTie (ms/mc_margin_ge_two_coarse, c2f_ms/mc_sound_code_margin: 2*bigDelta <= the margin expression "
+        "REGENERATED from MarchingSquaresC2F/MarchingCubesC2F, Gen/C2FMargin.lean); "
         "split/pieces/scan/dcwin kinds validate the faithful models (split_partitions, pieces_partition, "
         "scan_visits_each_layer_once, dcRun) against the real mcBlock/msBlock/squareSpacer/dcCubeLayout through hooks"
     ),
@@ -15,10 +21,17 @@ PROP = dict(
         "one case per (solid, setting): solids are dyadic voxel solids (checkerboard/sparse/dense/single/full/empty/blob, voxel = 1..4 lattice steps), "
         "dyadic balls/discs and unions/differences, sampled by the harness on the same lattice the library builds; sizes from 2 to ~90 points per axis, "
         "elongated slabs, and lattices of > 300k cells (divideVolume = Volume/4096 > 64); settings: GOMAXPROCS in {1,2,3,8,16}, "
-        "filters {true, exact, padded 1-2 cells, random conservative}, repeated runs, MarchingCubesC2F/MarchingSquaresC2F with coarse spacings 1..4x "
+        "filters {true, exact, padded 1-2 cells, random conservative}, repeated runs, MarchingCubesC2F/MarchingSquaresC2F with coarse spacings 1..4x (up to 8x/32x on fat voxels) "
         "that still see every feature; DualContouring MaxGos in {0,1,2,8} x BufferSize from 1 (BufRows=4) over k*row to 2^40 x GOMAXPROCS, "
         "triangle modes, clip on/off; Rasterizer subsamples in {1,2,3,4,8,16,17} (tiles of 16..1 px), images up to ~150x150, "
-        "RasterizeCollider/RasterizeColliderSolid against the unfiltered rendering. The implementation output is count + multiset hash of the "
+        "RasterizeCollider/RasterizeColliderSolid against the unfiltered rendering. Coarse-to-fine group (msc2f/mcc2f): tapered solids of random orientation "
+        "(2-D spikes, blunt wedges, spikes on a disc, tapering slots cut into a box; 3-D cones, blades, pyramids, also on a ball), base wider than bigDelta, "
+        "tips narrowing to 0..0.3 bigDelta, spacing ratios 8/16/32 (2-D) and 8/16 (3-D), random phase against the coarse lattice; a candidate is emitted only when "
+        "every fine sign-change cell is within one coarse spacing (max-norm) of a coarse sign-change cell (evaluated by the harness AND re-evaluated by the driver), "
+        "preferring candidates whose deepest feature is >= 1.45 bigDelta away from every coarse-mesh vertex (distribution: c12.c2f*.depth_iters8.*); iters in {0,3..12}, "
+        "extraSpace in {0, smallDelta}; searched vertices are snapped to their lattice edge for the hash, and the exact float face multiset is compared with the "
+        "direct MarchingSquaresSearch/MarchingCubesSearch mesh (same msc2f-direct / mcc2f-direct); same *-hverts checks on the real coarse mesh that every coarse "
+        "sign-change cell carries a vertex. The implementation output is count + multiset hash of the "
         "exact face list (doubled lattice coordinates / lattice edges / pixels); the model output is computed from the labelling by the plain "
         "sequential model, so any dependence on the setting is a disagreement whose replay names the setting. distinct = distinct op lines"
     ),
@@ -32,8 +45,15 @@ PROP = dict(
         "rasteriser: the shade function floor((1-k/n)*255.999) is abstract in the theorems except shade(n,n)=0 and shade(0,n)=255 (checked on the real code by every fully "
         "inside/outside tile of the corpus; the driver evaluates it with the same float operations); that the sub-sample points of a tile's pixels lie in the tile's "
         "rectangle is geometry left to the hypothesis 'solid constant on the tile'",
-        "PARTIAL: c2f_margin_sound_partial proves only the covering arithmetic of the 2*sqrt(3)*bigDelta margin under the explicit hypothesis that every fine sign change "
-        "meets a coarse cell carrying a coarse-mesh vertex; RectCollision itself is C07/C08; solids whose features the coarse grid misses are a documented limitation and are not generated",
+        "coarse-to-fine: 'a coarse spacing that still sees every feature' is READ as: every fine sign-change cell is within one coarse spacing (max-norm) of a coarse "
+        "sign-change cell (seenAll2/3 with R = m; the margin then needed is 2*bigDelta, which two 3-D cell diagonals 2*sqrt(3)*bigDelta cover); solids violating it are "
+        "not compared (a documented limitation of C2F itself). Hypotheses of c2f_ms_sound/c2f_mc_sound that are not proved about the code: the filter keeps a block "
+        "whenever a coarse-mesh vertex lies in its expanded bounds (completeness of RectCollision: C07/C08; Rect.Expand/Bounds read from the source), the real coarse "
+        "mesh is the modelled one (tied by the ms/mc kinds) and msSearch/mcSearch keep a vertex on its lattice edge (modelled: searchAxis, c2f_search_stays_on_edge; "
+        "checked on the real coarse meshes by the *-hverts cases); integer spacing ratios only; float rounding of the bounds is absorbed by the slack "
+        "(2*sqrt(3) - 2)*bigDelta",
+        "regenerated, not modelled: the margin expressions of MarchingSquaresC2F/MarchingCubesC2F and the shape of the filter closure (Gen/C2FMargin.lean, go/ast); "
+        "math.Sqrt is uninterpreted with sqrt(x)^2 = x and sqrt(x) >= 0",
         "DualContouring with Repair=true is not covered (post-processing iterates Go maps)",
     ],
     assumptions=[
@@ -47,11 +67,13 @@ PROP = dict(
         "MarchingCubes' for every worker count, every distribution of queue blocks over workers, every merge order and every conservative filter (rows 0/255 of the "
         "REGENERATED table are empty), same for marching squares; Scan's ring of g+1 caches presents every consecutive layer pair exactly once in order for every "
         "GOMAXPROCS and layer count; dcCubeLayout's windows triangulate every edge slot exactly once for every BufRows in [3..nz] with the needed cube rows inside the "
-        "buffer; raster tiles partition the pixels and a conservative tile filter changes no pixel. The models are tied to /repo on every run by executing the real "
+        "buffer; raster tiles partition the pixels and a conservative tile filter changes no pixel; coarse-to-fine: for every integer spacing ratio, solid, schedule and "
+        "extraSpace >= 0, if every fine sign-change cell is within one coarse spacing of a coarse sign-change cell then MarchingSquaresC2F/MarchingCubesC2F with the "
+        "margin as written in the source (regenerated; proved >= 2*bigDelta) yield the plain fine face multiset. The models are tied to /repo on every run by executing the real "
         "routines under the listed settings and comparing with the plain model computed from the lattice labelling, and by hooks on the real Split/Pieces/Scan/dcCubeLayout."
     ),
     level_note=(
         "Proved about the models in lean/M3d/Model/Partition.lean; worker scheduling, filter oracle and per-edge independence are modelling assumptions listed under trusted; "
-        "C2F is partial (margin arithmetic only); DC Repair not covered. Trusted: Lean kernel, table dump hook, Go harness and Lean driver (hashes, lattice replication)."
+        "C2F: proved up to the explicit hypotheses on RectCollision / the coarse mesh / msSearch listed under trusted, for the stated reading of 'sees every feature'; DC Repair not covered. Trusted: Lean kernel, table dump hook, Go harness and Lean driver (hashes, lattice replication)."
     ),
 )
